@@ -227,6 +227,26 @@ def call_native(eng, obj, args, kwargs, st):
         for k, v in kwargs.items():
             o.attrs[k] = v
         return ok(st.alloc(o), st)
+    if isinstance(obj, type) and (getattr(obj, "__module__", "") or "").startswith("doctrans"):
+        # instance of a class defined in the repository: a record; __init__ (repo source) is inlined
+        inst = st.alloc(HObj("%s.%s" % (obj.__module__, obj.__qualname__)))
+        init = getattr(obj, "__init__", None)
+        if isinstance(init, types.FunctionType) and (init.__module__ or "").startswith("doctrans"):
+            res = []
+            for r, s2 in eng.call_repo_function(init, [inst] + list(args), kwargs, st):
+                res.append((r, s2) if isinstance(r, Raise) else (inst, s2))
+            return res
+        return ok(inst, st)
+    if obj is ast.NodeVisitor.visit:
+        return n_node_visit(eng, args, kwargs, st)
+    if obj is getattr(ast.NodeVisitor, "visit_Constant", None):
+        # CPython: (deprecated visit_Num / visit_Str ... hooks aside, which no repo class defines) `return self.generic_visit(node)`
+        real_cls = eng._real_class(st.heap[args[0].oid].cls)
+        if any(hasattr(real_cls, "visit_" + n) for n in ("Num", "Str", "Bytes", "NameConstant", "Ellipsis")):
+            raise Unsupported("deprecated constant visitor hooks")
+        return eng.call(Native(getattr(real_cls, "generic_visit")), list(args), {}, st)
+    if obj is ast.NodeTransformer.generic_visit:
+        return n_transformer_generic_visit(eng, args, kwargs, st)
     if isinstance(obj, type) and issubclass(obj, BaseException):
         return ok(Opq(fresh("excobj", Obj), obj.__name__), st)
     # all-concrete pure builtins
@@ -877,8 +897,10 @@ def n_print(eng, args, kwargs, st):
 
 
 def n_generic_visit(eng, args, kwargs, st):
-    """ast.NodeTransformer.generic_visit(self, node) on a leaf node (Name): returns the node itself"""
-    eng.assumed.add("ast.NodeTransformer.generic_visit returns the visited leaf node itself (library traversal trusted)")
+    """ast.NodeTransformer.generic_visit(self, node): the faithful traversal for modelled nodes; an opaque node is returned as it is (trusted)"""
+    if len(args) == 2 and _node_cls(args[1], st) is not None and isinstance(args[0], Ref):
+        return n_transformer_generic_visit(eng, args, kwargs, st)
+    eng.assumed.add("ast.NodeTransformer.generic_visit returns the visited opaque node itself (library traversal trusted)")
     return ok(args[1], st)
 
 
@@ -1026,6 +1048,75 @@ def n_ast_parse(eng, args, kwargs, st):
             return err("SyntaxError", str(e), st)
         return ok(lift_real(tree, st), st)
     raise Unsupported("ast.parse of a symbolic text")
+
+
+def _node_cls(v, st):
+    if isinstance(v, Ref) and isinstance(st.heap[v.oid], HObj) and (st.heap[v.oid].cls or "").startswith("ast."):
+        return st.heap[v.oid].cls[4:]
+    return None
+
+
+def n_node_visit(eng, args, kwargs, st):
+    """ast.NodeVisitor.visit(self, node): dispatch on the node's class name to visit_<Class>, else generic_visit"""
+    self_, node = args
+    cname = _node_cls(node, st)
+    if cname is None:
+        raise Unsupported("visit of %r" % (node,))
+    real_cls = eng._real_class(st.heap[self_.oid].cls)
+    meth = getattr(real_cls, "visit_" + cname, None) or getattr(real_cls, "generic_visit")
+    return eng.call(Native(meth), [self_, node], {}, st)
+
+
+def n_transformer_generic_visit(eng, args, kwargs, st):
+    """ast.NodeTransformer.generic_visit(self, node) as in CPython: every node-valued field (and node member of a list field) is visited; a None result
+    removes it, a non-node result (a list) is spliced, anything else replaces it"""
+    self_, node = args
+    cname = _node_cls(node, st)
+    if cname is None:
+        raise Unsupported("generic_visit of %r" % (node,))
+    fields = [f for f in getattr(ast, cname)._fields if f in st.heap[node.oid].attrs]
+    states = [st]
+    for f in fields:
+        nxt_states = []
+        for s in states:
+            old = s.heap[node.oid].attrs[f]
+            if isinstance(old, Ref) and isinstance(s.heap[old.oid], HList):
+                accs = [([], s)]
+                for item in list(s.heap[old.oid].items):
+                    nacc = []
+                    for acc, s2 in accs:
+                        if _node_cls(item, s2) is None:
+                            nacc.append((acc + [item], s2))
+                            continue
+                        for r, s3 in n_node_visit(eng, [self_, item], {}, s2):
+                            if isinstance(r, Raise):
+                                return [(r, s3)]
+                            if r is None:
+                                nacc.append((acc, s3))
+                            elif _node_cls(r, s3) is not None:
+                                nacc.append((acc + [r], s3))
+                            elif isinstance(r, Ref) and isinstance(s3.heap[r.oid], HList):
+                                nacc.append((acc + list(s3.heap[r.oid].items), s3))
+                            else:
+                                raise Unsupported("visitor returned %r" % (r,))
+                    accs = nacc
+                for acc, s2 in accs:
+                    s2.heap[old.oid].items[:] = acc  # `old_value[:] = new_values`: the list object is kept
+                    nxt_states.append(s2)
+            elif _node_cls(old, s) is not None:
+                for r, s3 in n_node_visit(eng, [self_, old], {}, s):
+                    if isinstance(r, Raise):
+                        return [(r, s3)]
+                    if r is None:
+                        del s3.heap[node.oid].attrs[f]
+                    else:
+                        s3.heap[node.oid].attrs[f] = r
+                    nxt_states.append(s3)
+            else:
+                nxt_states.append(s)
+        states = nxt_states
+    eng.assumed.add("ast.NodeVisitor.visit / NodeTransformer.generic_visit: modelled as in CPython's ast.py (dispatch by class name; fields in _fields order)")
+    return [(node, s) for s in states]
 
 
 def n_fix_missing_locations(eng, args, kwargs, st):
@@ -1252,6 +1343,12 @@ def str_method(eng, recv, name, args, kwargs, st):
             st.pc.append(z3.Implies(z3.Not(z3.Contains(s, c)), r == s))
             st.pc.append(z3.Implies(z3.Length(r) == z3.Length(s), r == s))
             eng.assumed.add("str.replace(c*k, ''): modelled by its defining facts (no occurrence left, not longer, identity when none occurs)")
+            return ok(Sym(r, "str"), st)
+        if len(args) == 2 and isinstance(args[0], str) and isinstance(args[1], str) and args[0] != "":
+            # any other replace-all with literal arguments: a deterministic function of the text about which nothing else is assumed
+            r = z3.Function("replace_all_%s" % smt.sha("ra:%r:%r" % (args[0], args[1]))[:10], S, S)(s)
+            st.pc.append(z3.Implies(z3.Not(z3.Contains(s, z3.StringVal(args[0]))), r == s))
+            eng.assumed.add("str.replace(a, b) with literal a, b on a symbolic text: uninterpreted (identity when a does not occur)")
             return ok(Sym(r, "str"), st)
         raise Unsupported("replace-all on a symbolic string")
     if name == "join":
